@@ -100,8 +100,15 @@ def run(ctx):
           lambda x: (inner[x[0]]['first'] + x[1] - 1, (inner[x[0]]['year'], inner[x[0]]['month'], x[1])), 'lunar -> civil -> lunar is the identity for every valid lunar date',
           lambda x: '%s-%s-%d' % (inner[x[0]]['year'], inner[x[0]]['month'], x[1]), fn_site(p, 'LunarDay::get_solar_day'))
 
+    # ---- do the REAL month records tile across lunar years? (table + month-1 offset logic, no series values)
+    from rules import c03 as _c03
+    try:
+        _c03.chain_rule(ctx, _c03.leap_table(ctx.interp()))
+    except (Unanalysable, Bottom) as u:
+        ctx.unanalysable('TILE-CHAIN', 'TILE:LunarMonth::new:offsets', str(u))
+
     ctx.assumptions.append('scenario month records tile by construction; whether the REAL records tile is C03 (numeric)')
-    ctx.not_decided.append('bijection on the real calendar: it additionally needs the real month records to abut; they are known NOT to at the lunar year boundaries 8/9, 24/25 and 239/240 '
-                           '(hard-coded reform offsets): 9-01-01 -> lunar 8-12-17 -> 9-01-31. No structural rule in reach sees that; reported in DESIGN §5, not claimed')
+    ctx.not_decided.append('bijection on the real calendar needs the real month records to abut: across lunar years that is decided up to the 12-or-13 bound by TILE-CHAIN (known findings at 8/9, 23/24, 24/25); '
+                           'the break at 239/240 (0240-01-01 -> lunar 239 leap-11 day 20 -> 0240-01-31) passes that bound and is inside a reform window: not decided, DESIGN 10.3')
     return ('lunar comparators as decision tables incl. leap twins; constructor guards; both conversion directions evaluated with the real search loop for every day and every lunar date '
             'of tiling scenario calendars; solstice-month anchoring of the month records against a uniform-lunation model')
